@@ -86,6 +86,7 @@ CHECKS = {
         pkg="./csched", level="exploration",
         runs=[
             dict(name="concshut", run="^TestC03ConcurrentShutdown$", shards=(2, 4)),
+            dict(name="startfail", run="^TestC03StartFailure$", checks=(40, 400), shards=(1, 4), shrinktime="5s"),
             dict(name="realnats", run="^TestC03RealNATS$", checks=(10, 150), shards=(2, 8), shrinktime="5s"),
             dict(name="sched", run="^TestC03Shutdown$", checks=(20000, 120000), shards=(4, 16)),
             dict(name="stress", run="^TestC03Stress$", checks=(1200, 8000), shards=(4, 8)),
